@@ -123,8 +123,11 @@ def deductive(run: Run, sidecar: str, both: bool, enroll: bool) -> dict[str, Any
     key = f"{run.prop}:{sidecar}"
     if enroll:
         enrolled_all[key] = sorted(cid for cid, d in clauses.items() if d["discharged"])
+        # clauses that are stated but were not discharged on the unchanged tree (reported as such, never an alarm)
+        enrolled_all[key + "#stated_not_discharged"] = sorted(cid for cid, d in clauses.items() if not d["discharged"])
         json.dump(enrolled_all, open(ENROLLED_PATH, "w"), indent=1, sort_keys=True)
     enrolled = enrolled_all.get(key, [])
+    known_open = set(enrolled_all.get(key + "#stated_not_discharged", []))
     undecided_funcs = [u.split(":")[0] for u in sess.undecided]
     res: dict[str, Any] = {"sidecar": sidecar, "functions": sess.func_info, "vcs": len(sess.V.vcs), "clauses": len(clauses),
                            "gen_s": round(sess.gen_seconds, 2), "solve_s": round(sess.solve_seconds, 2)}
@@ -172,6 +175,10 @@ def deductive(run: Run, sidecar: str, both: bool, enroll: bool) -> dict[str, Any
                            if cid in clauses and clauses[cid]["discharged"] and cid.endswith("/ensures.coherent")}
     res["_failing"] = failing
     res["_missing"] = missing
+    # obligations that did not exist on the unchanged tree (the changed code performs a new operation: a call whose precondition must
+    # hold, a write outside the frame, a lookup that may fail ...) and are not discharged: decided by a failing input, else undecided
+    res["_new_failing"] = [(cid, d) for cid, d in clauses.items() if not d["discharged"] and cid not in enrolled and cid not in known_open]
+    res["new_obligations_not_discharged"] = sorted(cid for cid, _ in res["_new_failing"])
     res["_session"] = sess
     return res
 
@@ -212,6 +219,20 @@ def triage_failing(run: Run, sidecar: str, res: dict[str, Any]) -> None:
             run.report(fkey, base)
         else:
             run.report(fkey, base, no_input=True)
+    for cid, d in res.get("_new_failing", []):
+        func, clause = cid.split("/", 1)
+        found = None
+        if func in getattr(side, "GEN", {}) or func in getattr(side, "SMALL", {}):
+            r = native(os.path.join(HERE, sidecar), run.repo, "search", {"function": func, "clause": clause, "seed": run.seed, "n": 3000 if run.tier == "quick" else 30000})
+            if r.get("status") == "found":
+                found = r
+        if found is not None:
+            run.report(f"{func}/{clause}", {"obligation": cid, "clause_text": d["text"], "function": func, "sidecar": sidecar,
+                                            "solver_output": [{k: f[k] for k in ("vc", "verdict", "solver", "reason", "model", "second")} for f in d["failing"][:5]],
+                                            "encoded_args": found.get("encoded_args"), "args": found.get("args"), "observed_result": found.get("result"),
+                                            "raised": found.get("raised"), "violated_native_clauses": found.get("violations")})
+        else:
+            run.undecided.append(f"new obligation {cid} (not generated from the unchanged tree) is not discharged and no failing input was found")
     for cid in res["_missing"]:
         run.undecided.append(f"enrolled clause {cid} was not generated ({'; '.join(res['undecided'])[:300]})")
     for u in res["undecided"]:
@@ -289,8 +310,8 @@ def run(prop: str, tier: str, seed: int, repo: str, replay: str, enroll: bool) -
             res["mutation_selftest"] = st_res
             if st_res.get("mutants", 0) > 0 and st_res.get("killed", 0) == 0:
                 r.crashes.append(f"mutation self-test of {sc}: no mutant of the code makes any clause fail - the contracts / the generator prove too much")
-        for k in ("_failing", "_missing", "_session"):
-            res.pop(k)
+        for k in ("_failing", "_missing", "_session", "_new_failing"):
+            res.pop(k, None)
         res["_coherent_ok"] = res.get("_coherent_ok", {})
         ded_all.append(res)
     if d.get("frame_scan") and ded_all:
